@@ -1141,3 +1141,44 @@ Proof.
   - discriminate.
   - apply H. left. eexists. split; [exact Hc|]. left. now left.
 Qed.
+
+(** * Part 5: the whole parse (root level) and non-vacuity *)
+Lemma valid_assert_app c0 : valid c0 = true -> assert_app (build_self c0) = true.
+Proof. unfold valid. cbn [valid_tree]. intros H. now apply andb_true_iff in H as [H _]. Qed.
+
+(** what [_do_parse] reports for the final parser state [st]: the matches with the values of
+    global args copied across the levels *)
+Definition reported (c0 : cmd) (st : ps) : matches :=
+  let m := into_inner (mt st) in
+  let globals := used_global_args (S (matches_depth m))
+                   (build_recursive (S (S (depth (build_self c0)))) c0) m in
+  fst (fill_in_global_values (S (matches_depth m)) globals m []).
+
+Theorem do_parse_sound c0 toks m :
+  do_parse c0 toks = OOk m -> is_set s_ignore_errors (build_self c0) = false ->
+  exists st, run_level c0 toks = ROk st /\ m = reported c0 st
+             /\ (fm_wf (mt st) -> Relations (build_self c0) (mt st)).
+Proof.
+  unfold do_parse, run_level, reported. destruct (valid c0) eqn:V; cbn [negb]; [|discriminate].
+  intros H Hi. destruct (get_matches_with _ (build_self c0) toks ps_new) as [st|e st|n] eqn:E.
+  - injection H as H. exists st. split; [reflexivity|]. split; [symmetry; exact H|].
+    intros Wm. apply (gmw_sound (S (S (depth (build_self c0)))) _ toks ps_new st); auto. now apply valid_assert_app.
+  - rewrite Hi in H. cbn in H. discriminate.
+  - destruct n; discriminate.
+Qed.
+
+Definition fm_wf_b (mt : matcher) : bool := nodup_ids (map fst (mt_args mt)).
+Lemma fm_wf_b_sound mt : fm_wf_b mt = true -> fm_wf mt.
+Proof.
+  unfold fm_wf_b, fm_wf. induction (map fst (mt_args mt)) as [|x t IH]; cbn [nodup_ids]; [constructor|].
+  intros H. apply andb_true_iff in H as [H1 H2]. constructor; [|auto].
+  apply negb_true_iff in H1. now apply mem_id_false.
+Qed.
+
+(** non-vacuity: a valid command with groups, overrides and a required-unless rule, an argv
+    that parses, a well-formed and coherent matcher with a live rule *)
+Example sound_nonvacuous :
+  exists st, valid f2_cmd = true /\ run_level f2_cmd [dd [97;97]] = ROk st
+             /\ fm_wf_b (mt st) = true /\ coherent_b (build_self f2_cmd) (mt st) = true
+             /\ check_explicit (mt st) i_g PIsPresent = true.
+Proof. eexists. split; [vm_compute; reflexivity|]. split; [vm_compute; reflexivity|]. vm_compute. repeat split. Qed.
